@@ -357,6 +357,9 @@ def run_doc(ctx):
             else:
                 exp_pos = len(d)
             uv_inputs.append((d, exp_pos))
+    # the input ends inside a comment that follows the header value: everything is consumed, no error
+    for tail in (b" # end", b"#", b"\n\t\t\t#x {", b" # a\n # b }", b"#\r"):
+        uv_inputs.append((b"c=rgb" + tail, 5 + len(tail)))
     rest_cases = ["tr.slice\t%s" % hexs(d[p:]) for d, p in uv_inputs]
     r_impl, _ = ctx.correspond("text_uv_rest", rest_cases)
     rb = len(r_impl) - len(rest_cases)
